@@ -22,6 +22,7 @@ EXPLANATION = (
     ' (S3) the solver never selects the first entry of the imbalance / rule mapping; (S4) the carbon label counts molecules, not distinct spellings (shared with C07-E6); S2 also classifies textual identity between two pieces of given text and length thresholds on SMILES text as spelling-observing predicates; (S5) atom-map removal keeps the molecule (shared with C15-Rg1/Rg2).'
     ' (S6) no two mappings are paired by position of their values()/items()/keys() sequences on the rule-based path (key order = spelling order).'
     " (S7) rows are never removed because their text equals another row's (shared with C05-P1, duplicates)."
+    ' (S8) can_parse applies no test on the characters of the text; (S9) the command line drops no rows after a look at their text (shared with C05-P11).'
 )
 ASSUMPTIONS = [
     "PostProcess.label_reactions is a single named exemption: its label only routes a row to a curation step whose edits depend on RDKit's count of isolated radical atoms and on whole-component filters; no failing pair of spellings could be produced",
